@@ -1116,6 +1116,28 @@ func addState(in map[*ssa.BasicBlock]map[string]*r4state, b *ssa.BasicBlock, s *
 // r4edge records the fact carried by taking the edge (cond == pol); false if contradictory.
 func r4edge(s *r4state, cond ssa.Value, pol bool, L ssa.Value) bool {
 	g := Guard{Cond: cond, Pol: pol}.norm()
+	// if !exactly(length, 5) { return ErrParse }: the outcome of a boolean helper that compares the length
+	if hc, isCall := g.Cond.(*ssa.Call); isCall {
+		for _, e := range helperOutcomeEqs(hc, g.Pol) {
+			for i := 0; i < 2; i++ {
+				k, isK := constInt(e[1-i])
+				if !isK {
+					continue
+				}
+				if a := affineOf(e[i], L, 0); a.OK && a.A == 1 {
+					val := k - a.B
+					if old, has := s.eq[L]; has && old != val {
+						return false
+					}
+					if s.neq[L][val] {
+						return false
+					}
+					s.eq[L] = val
+				}
+			}
+		}
+		return true
+	}
 	bo, ok := g.Cond.(*ssa.BinOp)
 	if !ok {
 		return true
